@@ -196,11 +196,65 @@ class MultitaskMultivariateNormal(MultivariateNormal):
         """
         return cls.from_batch_mvn(mvn.expand(torch.Size([num_tasks]) + mvn.batch_shape), task_dim=0)
 
+    def add_jitter(self, noise=1e-4):
+        return self.__class__(
+            self.mean, self.lazy_covariance_matrix.add_jitter(noise), interleaved=self._interleaved
+        )
+
     def expand(self, batch_size):
         new_mean = self.mean.expand(torch.Size(batch_size) + self.mean.shape[-2:])
-        new_covar = self._covar.expand(torch.Size(batch_size) + self._covar.shape[-2:])
+        covar = self.lazy_covariance_matrix
+        new_covar = covar.expand(torch.Size(batch_size) + covar.shape[-2:])
         res = self.__class__(new_mean, new_covar, interleaved=self._interleaved)
         return res
+
+    def unsqueeze(self, dim):
+        if dim > len(self.batch_shape) or dim < -len(self.batch_shape) - 1:
+            raise IndexError(
+                "Dimension out of range (expected to be in range of "
+                f"[{-len(self.batch_shape) - 1}, {len(self.batch_shape)}], but got {dim})."
+            )
+        if dim < 0:
+            dim = len(self.batch_shape) + dim + 1
+        return self.__class__(
+            self.mean.unsqueeze(dim), self.lazy_covariance_matrix.unsqueeze(dim), interleaved=self._interleaved
+        )
+
+    def _covariance_in_layout_of(self, other):
+        # The covariance matrix of `self`, with rows / columns ordered like those of `other`
+        covar = self.lazy_covariance_matrix
+        if self._interleaved == other._interleaved:
+            return covar
+        num_data, num_tasks = self._output_shape[-2:]
+        if other._interleaved:
+            # position i * num_tasks + a of the interleaved layout holds entry a * num_data + i of this layout
+            perm = torch.arange(num_tasks * num_data, device=self.mean.device).view(num_tasks, num_data).t().reshape(-1)
+        else:
+            perm = torch.arange(num_tasks * num_data, device=self.mean.device).view(num_data, num_tasks).t().reshape(-1)
+        return covar[..., perm, :][..., :, perm]
+
+    def __add__(self, other):
+        if isinstance(other, MultitaskMultivariateNormal):
+            return self.__class__(
+                mean=self.mean + other.mean,
+                covariance_matrix=self.lazy_covariance_matrix + other._covariance_in_layout_of(self),
+                interleaved=self._interleaved,
+            )
+        elif isinstance(other, int) or isinstance(other, float):
+            return self.__class__(self.mean + other, self.lazy_covariance_matrix, interleaved=self._interleaved)
+        else:
+            raise RuntimeError("Unsupported type {} for addition w/ MultitaskMultivariateNormal".format(type(other)))
+
+    def __mul__(self, other):
+        if not (isinstance(other, int) or isinstance(other, float)):
+            raise RuntimeError("Can only multiply by scalars")
+        if other == 1:
+            return self
+        return self.__class__(
+            mean=self.mean * other,
+            covariance_matrix=self.lazy_covariance_matrix * (other**2),
+            interleaved=self._interleaved,
+        )
 
     def get_base_samples(self, sample_shape=torch.Size()):
         base_samples = super().get_base_samples(sample_shape)
